@@ -55,6 +55,9 @@ func pp(p orb.Point) *gen.P {
 }
 
 func checkCase(c Case) error {
+	if orb.EarthRadius != R {
+		return fmt.Errorf("orb.EarthRadius = %v, documented (WGS84 / EPSG:3857) %v", float64(orb.EarthRadius), float64(R))
+	}
 	nz := newNoiser(c.Noise)
 	switch c.Kind {
 	case "pair":
@@ -294,7 +297,7 @@ func drawPair(rt *rapid.T) *drawn {
 }
 
 func TestPropPair(t *testing.T) {
-	stats.Assume("point pairs have longitude in [-180,180] and latitude in [-89,89]; great-circle distance means arc length on the sphere of radius orb.EarthRadius")
+	stats.Assume("point pairs have longitude in [-180,180] and latitude in [-89,89]; great-circle distance means arc length on the sphere of radius 6378137 m (the documented value of orb.EarthRadius, held as the harness's own constant)")
 	stats.Assume("Midpoint is checked for pairs separated by at most 179.9 degrees (the midpoint of antipodes is not unique and the formula is ill-conditioned within ~40 m of the antipode)")
 	stats.Assume("equirectangular vs haversine: |diff| <= 1e-5*haversine + 1e-6 m for pairs with haversine < 10 km and both |lat| <= 80")
 	stats.Check(t, 300000, 8000000, func(rt *rapid.T) {
@@ -452,7 +455,7 @@ func TestPropAlongLine(t *testing.T) {
 }
 
 func genBox(t *rapid.T) (orb.Bound, string) {
-	class := rapid.SampledFrom([]string{"random", "random", "integer", "touches 180", "straddles equator", "near pole", "thin"}).Draw(t, "bclass")
+	class := rapid.SampledFrom([]string{"random", "random", "integer", "touches 180", "straddles equator", "near pole", "thin", "degenerate"}).Draw(t, "bclass")
 	w := logUniform(t, -3, math.Log10(3), "w")
 	h := logUniform(t, -3, math.Log10(3), "h")
 	if rapid.Bool().Draw(t, "uniform size") {
@@ -486,6 +489,15 @@ func genBox(t *rapid.T) (orb.Bound, string) {
 			w = 0.001
 		} else {
 			h = 0.001
+		}
+	case "degenerate": // zero width and/or zero height: area exactly the closed form 0
+		switch rapid.IntRange(0, 2).Draw(t, "zero") {
+		case 0:
+			w = 0
+		case 1:
+			h = 0
+		default:
+			w, h = 0, 0
 		}
 	}
 	b := orb.Bound{Min: orb.Point{lon, lat}, Max: orb.Point{lon + w, lat + h}}
@@ -535,7 +547,7 @@ func drawBox(rt *rapid.T) *drawn {
 }
 
 func TestPropBox(t *testing.T) {
-	stats.Assume("lon/lat boxes 0.001..3 degrees wide and high, inside lon [-180,180] (not crossing the antimeridian) and lat [-89,89]; the box ring is also spelled with up to 8 extra vertices on its edges (same lon/lat region, hence same closed form), in any rotation, reversed, closed or not; SignedArea is positive for the counter-clockwise spelling as its doc comment says; relative tolerance 1e-6")
+	stats.Assume("lon/lat boxes 0.001..3 degrees wide and high (plus zero-width / zero-height boxes, closed form 0), inside lon [-180,180] (not crossing the antimeridian) and lat [-89,89]; the box ring is also spelled with up to 8 extra vertices on its edges (same lon/lat region, hence same closed form), in any rotation, reversed, closed or not; SignedArea is positive for the counter-clockwise spelling as its doc comment says; relative tolerance 1e-6 plus the ring rounding allowance 1e-9 * R^2 * sum|dLon|")
 	stats.Check(t, 80000, 2000000, func(rt *rapid.T) {
 		d := drawBox(rt)
 		d.emit()
@@ -611,6 +623,12 @@ func TestPropRing(t *testing.T) {
 
 func genRingMember(t *rapid.T, c orb.Point, scale float64) orb.Ring {
 	n := rapid.IntRange(3, 8).Draw(t, "n")
+	switch rapid.IntRange(0, 11).Draw(t, "size") {
+	case 0: // rings of 0..2 points enclose nothing but have a length
+		return orb.Ring(genLocalPoints(t, c, scale, 0, 2))
+	case 1:
+		n = rapid.IntRange(9, 12).Draw(t, "nbig")
+	}
 	verts := genRingVerts(t, c, scale, n, rapid.SampledFrom([]string{"star", "star", "lattice", "arbitrary"}).Draw(t, "rk"))
 	return spelling(verts, 0, false, rapid.IntRange(0, 3).Draw(t, "closed") > 0)
 }
@@ -660,18 +678,24 @@ func genMember(t *rapid.T, c orb.Point, scale float64, depth int) orb.Geometry {
 		return genRingMember(t, c, scale)
 	case "Bound":
 		w, h := scale*rapid.Float64Range(0.01, 1).Draw(t, "w"), scale*rapid.Float64Range(0.01, 1).Draw(t, "h")
+		switch rapid.IntRange(0, 7).Draw(t, "degenerate") {
+		case 0:
+			w = 0
+		case 1:
+			h = 0
+		}
 		return orb.Bound{Min: c, Max: orb.Point{c[0] + w, c[1] + h}}
 	case "Point":
 		return c
 	case "MultiPoint":
 		return orb.MultiPoint(genLocalPoints(t, c, scale, 0, 4))
 	case "LineString":
-		return orb.LineString(genLocalPoints(t, c, scale, 0, 6))
+		return orb.LineString(genLocalPoints(t, c, scale, 0, rapid.SampledFrom([]int{6, 6, 6, 24}).Draw(t, "maxlen")))
 	case "MultiLineString":
 		n := rapid.IntRange(0, 3).Draw(t, "nl")
 		ml := make(orb.MultiLineString, n)
 		for i := range ml {
-			ml[i] = orb.LineString(genLocalPoints(t, c, scale, 0, 5))
+			ml[i] = orb.LineString(genLocalPoints(t, c, scale, 0, rapid.SampledFrom([]int{5, 5, 5, 20}).Draw(t, "maxlen")))
 		}
 		return ml
 	}
